@@ -36,6 +36,8 @@ type Result struct {
 	NonTrivial bool
 	Classes    []string
 	Violation  *Violation
+	// Counts are summed into the sub-check's extra counters (e.g. pairs and triples evaluated inside one case).
+	Counts map[string]int
 	// Excluded names the open known finding because of which the case was
 	// withheld (not executed); it is counted, not evaluated.
 	Excluded string
@@ -408,6 +410,13 @@ func (a *accum) add(desc []byte, res Result) {
 	s.Evaluations++
 	for _, c := range res.Classes {
 		s.Classes[c]++
+	}
+	for k, n := range res.Counts {
+		if s.Extra == nil {
+			s.Extra = map[string]any{}
+		}
+		prev, _ := s.Extra[k].(int)
+		s.Extra[k] = prev + n
 	}
 	if res.NonTrivial {
 		s.NonTrivial++
